@@ -175,6 +175,7 @@ type Sim struct {
 	Epoch     time.Time
 	idleSlept time.Duration
 
+	wake      chan struct{}
 	traceHash uint64
 	YieldsByKind [len(kindNames)]int
 	Deadlock  string
@@ -205,6 +206,7 @@ func New(tape *Tape) *Sim {
 		traceHash:  1469598103934665603,
 	}
 	s.FS = newFSState()
+	s.wake = make(chan struct{}, 1)
 	setCur(s)
 	return s
 }
@@ -374,6 +376,12 @@ func taskExit(s *Sim, t *Task) {
 func park(t *Task) {
 	t.st = stParked
 	raceDisable()
+	if s := cur; s != nil {
+		select {
+		case s.wake <- struct{}{}:
+		default:
+		}
+	}
 	v := <-t.resume
 	raceEnable()
 	if v == resumeDie {
@@ -659,13 +667,19 @@ func (s *Sim) RunUntilIdle(stop func() bool) Reason {
 func (s *Sim) Run(stop func() bool) Reason {
 	idleQuantum := time.Millisecond
 	for {
+		before := s.Step
 		r := s.RunUntilIdle(stop)
 		if r != RIdle {
 			return r
 		}
+		if s.Step != before {
+			idleQuantum = time.Millisecond
+		}
 		if s.idleSlept < s.TimeBudget && s.anyBlockedReal() {
-			time.Sleep(idleQuantum)
-			s.idleSlept += idleQuantum
+			// Discrete-event time: sleep until the quantum is over or until some
+			// task parks (a timer woke it), whichever comes first, so that the
+			// clock stops at the instant of the first wake-up.
+			s.idleSleep(idleQuantum)
 			if idleQuantum < time.Hour {
 				idleQuantum *= 4
 			}
@@ -676,6 +690,27 @@ func (s *Sim) Run(stop func() bool) Reason {
 		s.Deadlock = s.lockCycle()
 		return RIdle
 	}
+}
+
+//go:norace
+func (s *Sim) idleSleep(d time.Duration) {
+	raceDisable()
+	select {
+	case <-s.wake:
+	default:
+	}
+	raceEnable()
+	t0 := time.Now()
+	timer := time.NewTimer(d)
+	raceDisable()
+	select {
+	case <-timer.C:
+	case <-s.wake:
+	}
+	raceEnable()
+	timer.Stop()
+	s.idleSlept += time.Since(t0)
+	waitQuiescent()
 }
 
 // DescribeLive lists the unfinished tasks and where they are.
